@@ -21,4 +21,10 @@ PROPS = {
         bounded=["bounded.c19_tiles"],
         trusted=["specs/c19_spinn5.py tile model: 48-chip hexagon 0<=x,y<=7, x-y<=4, y-x<=3; Ethernet chips at (0,0),(4,8),(8,4) mod 12 (transcribed from the SpiNN-5 documentation, independent of the code's table)"],
     ),
+    "C15": dict(
+        level="proof",
+        specs=["specs.c15_packets"],
+        bounded=["bounded.c15_packets", "bounded.struct_selftest"],
+        trusted=["T4 pyvc.struct_model (struct.pack/unpack of x B H I ... in '<' and '!' order), cross-checked against CPython's struct on every run by bounded.struct_selftest"],
+    ),
 }
